@@ -17,7 +17,8 @@ CFG = {
             "flip, composed/decomposed, empty, doubled) on every format; KeyStore flows ImportECDSA/NewAccount/Unlock/Lock/Export/Import/Update/"
             "SignHashWithPassphrase/SignTxWithPassphrase/Delete judged step by step, incl. Unlock/TimedUnlock with a wrong passphrase on an ALREADY unlocked "
             "account (indefinitely and timed) (every file the keystore writes must carry its address); EncryptKey "
-            "output recomputed by the model; Update over longer previous content (other scrypt n/p via a second KeyStore on the directory, indented, v1, pbkdf2 files: the file must be "
+            "output recomputed by the model; unlock-state histories (random Unlock / TimedUnlock long+short / Lock / wrong-pass / Update / Export / Sign* sequences: every signature must "
+            "be byte-equal to the stored key's, locked => ErrLocked); Update over longer previous content (other scrypt n/p via a second KeyStore on the directory, indented, v1, pbkdf2 files: the file must be "
             "exactly the new encoding); 6 goroutines encrypting / storing / updating / exporting concurrently with per-call n,p (every blob must carry its own parameters and open "
             "with its own passphrase); whole-file substitution (A's file overwritten by B's file / B re-encrypted under A's passphrase / B's file with A's address, "
             "then Unlock, TimedUnlock, SignHash/TxWithPassphrase, Export, Update, Delete on A must fail or use A's key); read-side legacy files whose plaintext has the key's "
